@@ -429,6 +429,12 @@ func (f *formatter) fmtSbx(s string, b []byte, digits string) {
 		}
 		return
 	}
+	// The encoding is appended to the output fmtbuf directly, bypassing the
+	// size checks of the fmtbuf write methods, so check the limit here.
+	if n := len(*f.buf) + width; n > MaxStringLen ||
+		(f.widPresent && f.wid > width && n+f.wid-width > MaxStringLen) {
+		panic(ErrStringLimit)
+	}
 	// Handle padding to the left.
 	if f.widPresent && f.wid > width && !f.minus {
 		f.writePadding(f.wid - width)
